@@ -27,6 +27,19 @@ def run(ctx):
                     r.ok("%s: %s under self.%s" % (m.short, norm(c)[:40], flag))
                 else:
                     r.fail(m, c, norm(c), "a control code is written although the bar is not in overwrite mode (plain output would receive it)")
+    # erasing a section is the section-output form of moving back: same mode flag (on a plain section nothing can be erased, so the
+    # frame must take the new-line arm instead)
+    for name, m in sorted(methods.items()):
+        cfg = ctx.cfg(m)
+        for c in q.calls(m):
+            if isinstance(c.func, ast.Attribute) and c.func.attr == "clear" and is_self_attr(c.func.value) and c.args:
+                n_sites += 1
+                g = all(guarded_by(cfg, n, lambda e: is_self_attr(e, flag), polarity=True) is not None for n in cfg.nodes_of(c))
+                if g:
+                    r.ok("%s: %s under self.%s" % (m.short, norm(c)[:40], flag))
+                else:
+                    r.fail(m, c, norm(c.func) + "(...) outside overwrite mode", "%s erases the previous frame of a section although the bar is not in overwrite mode: on a section of a plain output "
+                           "nothing is erased and the new-line arm is skipped, so all frames run together on one line" % m.short)
     init = methods["__init__"]
     cfg = ctx.cfg(init)
     clears = [n for n in cfg.nodes if n.kind == "stmt" and isinstance(n.ast, ast.Assign) and any(is_self_attr(t, flag) for t in n.ast.targets)
@@ -150,4 +163,67 @@ def run(ctx):
                        "the next advance is no longer throttled against the last real write" if "time" in fld else "the next frame no longer pads over what is still on the line (residue of the longer frame)"))
         if not writers:
             r.note("%s is not used any more" % fld)
+
+    # ---------------------------------------------------------------- R6
+    r = ctx.rule("C16-R6", "RANGE", "the current step is never negative: every path to the store of the step passes a lower-bound decision on the "
+                 "value stored (the clamp at 0, or the arm in which it exceeds the maximum), whatever the maximum is", reference=1)
+    sp = methods["set_progress"]
+    cfg = ctx.cfg(sp)
+    prm = [a for a in sp.params if a != "self"]
+    stores = [n for n in cfg.nodes if n.kind == "stmt" and isinstance(n.ast, ast.Assign) and any(is_self_attr(t, "_step") for t in n.ast.targets) and isinstance(n.ast.value, ast.Name) and n.ast.value.id in prm]
+    ctx.require(stores, "set_progress no longer stores its argument as the current step")
+    for st in stores:
+        v = st.ast.value.id
+        decided = set()
+        for n in cfg.nodes:
+            e = n.ast
+            if n.kind in ("T", "F") and isinstance(e, ast.Compare) and len(e.ops) == 1 and isinstance(e.left, ast.Name) and e.left.id == v:
+                op, rhs = e.ops[0], e.comparators[0]
+                zero = isinstance(rhs, ast.Constant) and rhs.value == 0
+                if (isinstance(op, ast.Lt) and zero and n.kind == "F") or (isinstance(op, ast.GtE) and zero and n.kind == "T") or (isinstance(op, (ast.Gt, ast.GtE)) and not zero and n.kind == "T"):
+                    decided.add(n.id)
+            if n.kind == "stmt" and isinstance(e, ast.Assign) and any(isinstance(t, ast.Name) and t.id == v for t in e.targets):
+                val = e.value
+                if (isinstance(val, ast.Constant) and isinstance(val.value, int) and val.value >= 0) or (isinstance(val, ast.Call) and isinstance(val.func, ast.Name) and val.func.id == "max"
+                                                                                                            and any(isinstance(a, ast.Constant) and a.value == 0 for a in val.args)):
+                    decided.add(n.id)
+        if decided and cfg.all_paths_hit(cfg.entry.id, decided, [st.id]):
+            r.ok("%s: %s >= 0 decided on every path to %s" % (sp.short, v, norm(st.ast)))
+        else:
+            r.fail(sp, st.ast, norm(st.ast) + " without lower bound", "%s can store a negative step (a path reaches `%s` without the clamp at 0 - e.g. when the bar has no maximum): "
+                   "the frame shows a negative current step" % (sp.short, norm(st.ast)))
+
+    # ---------------------------------------------------------------- R7
+    r = ctx.rule("C16-R7", "GUARD", "the configured minimum interval between redraws is stored for every kind of output: in the constructor the store of that "
+                 "parameter depends on nothing but the parameter itself (plain outputs are throttled too)", reference=1)
+    throttle_fields = set()
+    for n in walk_no_nested(sp.node):
+        if isinstance(n, ast.Compare) and any(is_self_attr(x) and "min" in x.attr for x in walk_no_nested(n)):
+            throttle_fields |= {x.attr for x in walk_no_nested(n) if is_self_attr(x) and "min" in x.attr}
+    ctx.require(throttle_fields, "set_progress has no throttle test against a minimum interval any more")
+    icfg = ctx.cfg(init)
+    iprm = set(a for a in init.params if a != "self")
+    n7 = 0
+    for n in icfg.nodes:
+        if n.kind == "stmt" and isinstance(n.ast, ast.Assign) and any(is_self_attr(t) and t.attr in throttle_fields for t in n.ast.targets) and isinstance(n.ast.value, ast.Name) and n.ast.value.id in iprm:
+            n7 += 1
+            pname = n.ast.value.id
+            foreign = []
+            for e in icfg.nodes:
+                if e.kind in ("T", "F") and icfg.dominates(e.id, n.id) and e.ast is not None:
+                    names = q.names_in(e.ast) - {pname}
+                    if names:
+                        foreign.append(("" if e.kind == "T" else "not ") + norm(e.ast))
+            if foreign:
+                r.fail(init, n.ast, norm(n.ast) + " under " + foreign[0], "the constructor keeps the configured minimum interval only when %s: on the other kind of output the throttle "
+                       "stays at its initial value and redraws caused by advancing come closer together than configured" % " and ".join(foreign))
+            else:
+                r.ok("%s: %s depends only on the parameter" % (init.short, norm(n.ast)))
+    if n7 == 0:
+        r.fail(init, init.node, "throttle parameter not stored", "the constructor never stores its minimum-interval parameter in %s" % sorted(throttle_fields))
+
+    # ---------------------------------------------------------------- R8
+    from .c15 import section_order_rule
+
+    section_order_rule(ctx, "C16-R8", reference=3)
     return ctx.results
